@@ -880,8 +880,9 @@ def run(ctx):
         elif isinstance(h, ARHarness):
             if quick:
                 b = 2 if _deep_quick(h) else 1
-            else:   # thorough: bound 2 for the <= 1-event programs (ignoring children: only the core ones)
-                b = 2 if len(h.gaps) <= 1 and (not h.ign or _core(h) or h.ka != KA) else 1
+            else:   # thorough: bound 2 for the <= 1-event programs with at most one short-lived child
+                # (ignoring children: only the core ones); everything else at bound 1
+                b = 2 if (len(h.gaps) <= 1 and len(h.life) <= 2 and (not h.ign or _core(h) or h.ka != KA)) else 1
         else:
             b = 2 if quick else 3
         jobs.append((h, b))
